@@ -99,6 +99,21 @@ fn main() {
         }
     }
 
+    // known-answer self-tests of the reference models: a broken oracle is exit 2, never a verdict
+    if let Err(e) = pkverif::model::selftest::crypto() {
+        eprintln!("harness self-test failed: {e}");
+        std::process::exit(2);
+    }
+    if ["C01", "C10"].contains(&id) {
+        match pkverif::model::psl::Psl::load().and_then(|p| pkverif::model::selftest::psl(&p)) {
+            Ok(()) => {}
+            Err(e) => {
+                eprintln!("harness self-test failed: {e}");
+                std::process::exit(2);
+            }
+        }
+    }
+
     // thorough tier of the generator-driven engines: run as parallel shards and merge
     const SHARDED: [&str; 15] = ["C01", "C02", "C03", "C05", "C06", "C07", "C08", "C09", "C10", "C12", "C13", "C14", "C16", "C17", "C19"];
     if tier == Tier::Thorough && SHARDED.contains(&id) && std::env::var("VERIF_SHARDS").is_err() && std::env::var("VERIF_NO_SHARDS").is_err() {
